@@ -2,6 +2,7 @@ package props
 
 import (
 	"bytes"
+	"errors"
 	"fmt"
 	"testing"
 
@@ -153,8 +154,8 @@ func c17Oracle(in c17In) probe.Outcome {
 				pos := 17 + op.Pos%(len(x)-17) // never the first-payload octet (carve-out of C02)
 				x[pos] ^= 1 << uint(op.Bit%8)
 				_, err := libUnprotect(x, L, op.AsI, op.WithHdr)
-				if probe.IsPanic(err) {
-					return probe.Fail("%s: panic: %v", step, err)
+				if probe.IsPanic(err) || errors.Is(err, errNeitherNor) {
+					return probe.Fail("%s: %v", step, err)
 				}
 				if err == nil {
 					return probe.Fail("%s: forged message (bit %d of octet %d flipped) accepted by the long-lived SA", step, op.Bit%8, pos)
@@ -163,8 +164,8 @@ func c17Oracle(in c17In) probe.Outcome {
 			default:
 				l := 29 + op.Pos%(len(w)-29)
 				_, err := libUnprotect(w[:l], L, op.AsI, op.WithHdr)
-				if probe.IsPanic(err) {
-					return probe.Fail("%s: panic: %v", step, err)
+				if probe.IsPanic(err) || errors.Is(err, errNeitherNor) {
+					return probe.Fail("%s: %v", step, err)
 				}
 				if err == nil {
 					return probe.Fail("%s: message truncated to %d of %d octets accepted by the long-lived SA", step, l, len(w))
@@ -175,8 +176,8 @@ func c17Oracle(in c17In) probe.Outcome {
 			withHdr := op.WithHdr && len(op.Garbage) >= 28
 			gL, eL := libUnprotect(op.Garbage, L, op.AsI, withHdr)
 			gF, eF := libUnprotect(op.Garbage, F, op.AsI, withHdr)
-			if probe.IsPanic(eL) {
-				return probe.Fail("%s: panic: %v", step, eL)
+			if probe.IsPanic(eL) || errors.Is(eL, errNeitherNor) {
+				return probe.Fail("%s: %v", step, eL)
 			}
 			if (eL == nil) != (eF == nil) {
 				return probe.Fail("%s: long-lived SA (%v) and fresh SA (%v) disagree on %d garbage octets", step, eL, eF, len(op.Garbage))
